@@ -703,6 +703,7 @@ pub fn run(tier: Tier) -> Report {
     start_code_sweep(&rep, tier);
     source_fault_sweep(&rep, tier);
     type_width_sweep(&rep);
+    overlong_skip_sweep(&rep);
 
     rep.set_rule(
         "BFS to fixpoint over the reader's exact state (bytes pulled, buffer length, bit offset, grown?, and the ring buffer's physical layout: capacity and first-slice length) for every source; every operation of the alphabet applied in every state, every step compared with a bit-vector model, a drain probe at every new state; \
@@ -1060,6 +1061,68 @@ fn type_width_sweep(rep: &Report) {
     rep.extra("result_type_x_width_x_phase_cases", json!(n));
 }
 
+/// A skip (or a wide read inside a transaction) that asks for more than the source holds, from
+/// every kind of distance: sources of 1..=200 bytes, positions at several phases, excess from one
+/// bit to thousands. The request must report end of data and consume nothing: every remaining bit
+/// of the source is still delivered afterwards, in order.
+fn overlong_case<R: Read>(mut rd: H263Reader<R>, bits: &[bool], pos: usize, extra: usize, variant: usize) -> Result<(), String> {
+    let left = bits.len() - pos;
+    if pos > 0 {
+        rd.skip_bits(pos as u32).map_err(|e| format!("positioning skip failed: {e:?}"))?;
+    }
+    // variant 1: a 32-bit read past the end comes first (when fewer than 32 bits remain)
+    if variant == 1 && left < 32 && rd.read_bits::<u32>(32).is_ok() {
+        return Err("a 32-bit read past the end succeeded".into());
+    }
+    if rd.skip_bits((left + extra) as u32).is_ok() {
+        return Err("the over-long skip succeeded".into());
+    }
+    // everything that was left must still come out, in order
+    let mut at = pos;
+    while at < bits.len() {
+        let w = (bits.len() - at).min(13);
+        let want = val_of(&bits[at..at + w]);
+        match rd.read_bits::<u32>(w as u32) {
+            Ok(v) if v as u64 == want => at += w,
+            other => return Err(format!("after the refused request the {w} bits at position {at} come out as {:?}, the source has {want:#x}", other.map_err(|e| format!("{e:?}")))),
+        }
+    }
+    if rd.read_bits::<u8>(1).is_ok() {
+        return Err("a bit was delivered beyond the end of the source".into());
+    }
+    Ok(())
+}
+
+fn overlong_skip_sweep(rep: &Report) {
+    let lens: Vec<usize> = (1..=20).chain([31, 32, 33, 63, 64, 65, 70, 100, 127, 128, 129, 130, 191, 192, 193, 200]).collect();
+    let cases: Vec<(usize, usize)> = lens.iter().flat_map(|&l| [0usize, 1, 7, 8, 13, 64, 8 * (l / 2) + 3].into_iter().filter(move |&p| p < 8 * l).map(move |p| (l, p))).collect();
+    let n = std::sync::atomic::AtomicU64::new(0);
+    cases.par_iter().for_each(|&(len, pos)| {
+        let data: Vec<u8> = (0..len).map(|i| (i as u8).wrapping_mul(0x6D) ^ 0xB4).collect();
+        let bits = bits_of(&data);
+        for extra in [1usize, 2, 7, 8, 9, 17, 63, 64, 65, 255, 256, 504, 505, 511, 512, 513, 520, 1000, 1023, 1024, 4095, 4096, 4097, 70000] {
+            for variant in 0..3usize {
+                n.fetch_add(1, std::sync::atomic::Ordering::Relaxed);
+                // variant 2 reads through a source that answers with short counts
+                let r = if variant == 2 {
+                    overlong_case(H263Reader::from_source(Chunky { data: &data, pos: 0, calls: 0, pattern: CHUNK_PATTERNS[1 + (len + pos) % 3] }), &bits, pos, extra, variant)
+                } else {
+                    overlong_case(H263Reader::from_source(&data[..]), &bits, pos, extra, variant)
+                };
+                if let Err(what) = r {
+                    rep.violation_lazy("C14/overlong-request-consumed-input", || {
+                        (format!("source of {len} bytes (byte i = i * 0x6D ^ 0xB4), position {pos}, skip of {} bits ({extra} more than remain), variant {variant}: {what}", bits.len() - pos + extra), json!({"kind": "reader-overlong", "len": len, "pos": pos, "extra": extra, "variant": variant}))
+                    });
+                }
+            }
+        }
+    });
+    let n = n.into_inner();
+    rep.add_states(n);
+    rep.add_transitions(4 * n);
+    rep.extra("overlong_request_cases", json!(n));
+}
+
 fn source_fault_sweep(rep: &Report, tier: Tier) {
     let prims = [Prim::Read32(1), Prim::Read32(9), Prim::Read32(17), Prim::Read32(32), Prim::Peek32(25), Prim::Skip(13), Prim::Signed16(11), Prim::ReadU8, Prim::Sc(false), Prim::Sc(true), Prim::Vlc(0), Prim::Umv];
     let srcs: Vec<Vec<u8>> = vec![
@@ -1316,6 +1379,13 @@ pub fn replay(case: &serde_json::Value) {
             "isize" => show!(isize, usize),
             _ => show!(u32, u32),
         }
+        return;
+    }
+    if case["kind"] == "reader-overlong" {
+        let (len, pos, extra, variant) = (case["len"].as_u64().unwrap_or(1) as usize, case["pos"].as_u64().unwrap_or(0) as usize, case["extra"].as_u64().unwrap_or(1) as usize, case["variant"].as_u64().unwrap_or(0) as usize);
+        let data: Vec<u8> = (0..len).map(|i| (i as u8).wrapping_mul(0x6D) ^ 0xB4).collect();
+        let bits = bits_of(&data);
+        println!("source of {len} bytes, position {pos}, skip of {} bits, variant {variant}: {:?}", bits.len() - pos + extra, overlong_case(H263Reader::from_source(&data[..]), &bits, pos, extra, variant));
         return;
     }
     if case["kind"] == "reader-sc" {
